@@ -444,6 +444,58 @@ func runC14(c *core.Ctx) core.Meta {
 		}
 	}
 
+	// ---------------- R14.11 the two release sites of the pass do the same bookkeeping ----------------
+	st11 := c.Rule("R14.11", "a barrier is released from two places in the pass over internally executing wavefronts: by the last wavefront that arrives (s_barrier) and by a wavefront that ends while the others wait (s_endpgm). Both mark the work-group as released for the rest of the pass and purge its wavefronts from both lists: the operations in the block that follows `if passBarrier` (map updates, calls) are the same at the two sites. A site that omits the mark lets wavefronts of the released group that stand later in the list (they stayed there because the barrier buffer was full) be evaluated again as arriving at the barrier", 1)
+	if fn := c.MustFunc("R14.11", cuPkg, "SchedulerImpl.EvaluateInternalInst"); fn != nil {
+		c.MarkAnalysed(fn)
+		effects := map[string][]string{}
+		for _, b := range fn.Blocks {
+			iff, ok := b.Instrs[len(b.Instrs)-1].(*ssa.If)
+			if !ok {
+				continue
+			}
+			ex, ok := iff.Cond.(*ssa.Extract)
+			if !ok || ex.Index != 2 {
+				continue
+			}
+			call, ok := ex.Tuple.(*ssa.Call)
+			if !ok || call.Call.StaticCallee() == nil {
+				continue
+			}
+			site := call.Call.StaticCallee().Name()
+			if site != "evalSBarrier" && site != "evalSEndPgm" {
+				continue
+			}
+			var eff []string
+			for _, in := range b.Succs[0].Instrs {
+				switch x := in.(type) {
+				case *ssa.MapUpdate:
+					eff = append(eff, "map-update")
+				case *ssa.Call:
+					if cal := x.Call.StaticCallee(); cal != nil {
+						eff = append(eff, "call:"+cal.Name())
+					}
+				case *ssa.Store:
+					if f := core.FieldOfAddr(x.Addr); f != nil {
+						eff = append(eff, "store:"+f.Name())
+					}
+				}
+			}
+			sort.Strings(eff)
+			effects[site] = eff
+		}
+		st11.Instances++
+		a, b := strings.Join(effects["evalSBarrier"], ","), strings.Join(effects["evalSEndPgm"], ",")
+		ok := len(effects) == 2 && a == b
+		st11.Ob(ok)
+		st11.Sample("after s_barrier: {%s}; after s_endpgm: {%s}", a, b)
+		if len(effects) != 2 {
+			c.Undecided("R14.11", fn, fn.Pos(), "release-sites", "the two `if passBarrier` blocks of the pass were not found")
+		} else if !ok {
+			c.ReportAt("R14.11", fn, fn.Pos(), "release-sites-differ", "the release by s_barrier does {"+a+"}, the release by s_endpgm does {"+b+"}: the site that omits the mark of the released group lets its wavefronts that stand later in the internal-execution list be evaluated again in the same pass - set ready by the release, they are parked at the barrier a second time and pass it twice, skipping the instruction behind it")
+		}
+	}
+
 	// ---------------- R14.6 released wavefronts leave the internal-execution list ----------------
 	st6 := c.Rule("R14.6", "in the pass over internally executing wavefronts, the list that replaces s.internalExecuting is purged of the work-group's wavefronts on every path on which a barrier was passed (wavefronts that waited in that list were set ready by the release and must not be evaluated again); a wavefront whose instruction completed is not kept in the list", 2)
 	if fn := c.MustFunc("R14.6", cuPkg, "SchedulerImpl.EvaluateInternalInst"); fn != nil {
